@@ -94,8 +94,6 @@ def logical_line_end(text, b, start, stmt_end):
     """Byte offset of the end of the logical line that contains byte offset `start` (CPython tokenize decides)."""
     m = re.compile(rb"[\r\n]").search(b, stmt_end)
     fallback = m.start() if m else len(b)
-    if "\x0c" in text:
-        return fallback
     if "\r" in text:
         # tokenize an LF-only copy and map offsets back and forth (CRLF is one line break)
         norm, back = [], []   # back[i] = original byte offset of norm char i
@@ -168,6 +166,19 @@ def classify_reject(text, mode, rep, pt):
                     if v["_t"] in ("BoolOp", "Compare", "IfExp", "Lambda") or (v["_t"] == "UnaryOp" and v["op"] == "Not"):
                         if b[e["_r"][0] + 1:v["_r"][0]].strip() == b"":
                             return "subscript-starred-index-operand-above-bitwise-or-rejected"
+    # ... the same inside an f-string replacement field (errors there are reported at the field, not at the token)
+    if "FStringError(InvalidExpression" in err:
+        for n, parent, field in pyref.walk(pt):
+            r = n.get("_r")
+            if n["_t"] == "JoinedStr" and r and r[0] <= off <= r[1] + 1:
+                for m, _, _ in pyref.walk(n):
+                    if m["_t"] == "Subscript":
+                        sl = m["slice"]
+                        for e in (sl["elts"] if pyref.is_node(sl) and sl["_t"] == "Tuple" else [sl]):
+                            if pyref.is_node(e) and e["_t"] == "Starred":
+                                v = e["value"]
+                                if v["_t"] in ("BoolOp", "Compare", "IfExp", "Lambda") or (v["_t"] == "UnaryOp" and v["op"] == "Not"):
+                                    return "subscript-starred-index-operand-above-bitwise-or-rejected"
     # soft keyword heuristics: a logical line that starts with match/case used as a name and holds a colon
     cand = None
     for s in _stmts_by_start(pt):
